@@ -3,20 +3,20 @@ import KinModel.Conc
 import KinModel.ConcCase
 namespace KinModel.Conc
 
-theorem cache_cell_ge (c : CaseM) : ∀ x : Nat, x ∈ (caseCfg c).cache → 10 ≤ x := by
+theorem cache_cell_ge (c : CaseM) : ∀ x : Nat, x ∈ (caseCfg c).cache → 10 ≤ x ∧ x % 2 = 1 := by
   intro x hx
-  simp only [caseCfg, List.mem_append, List.mem_flatMap, List.mem_map] at hx
-  rcases hx with ⟨o, _, p, _, rfl⟩ | ⟨o, _, rfl⟩
-  · show 10 ≤ 10 + 2 * p; omega
-  · show 10 ≤ 11 + 2 * o.genType; omega
+  simp only [caseCfg, List.mem_map] at hx
+  obtain ⟨o, _, rfl⟩ := hx
+  show 10 ≤ 11 + 2 * o.genType ∧ (11 + 2 * o.genType) % 2 = 1
+  omega
 
 theorem small_not_cache (c : CaseM) (x : Nat) (h : x < 10) : (caseCfg c).cache.contains x = false := by
   cases hc : (caseCfg c).cache.contains x with
   | false => rfl
-  | true => have := cache_cell_ge c x (by simpa using hc); omega
+  | true => have := (cache_cell_ge c x (by simpa using hc)).1; omega
 
 theorem small_not_mem (c : CaseM) (x : Nat) (h : x < 10) : x ∉ (caseCfg c).cache := fun hm => by
-  have := cache_cell_ge c x hm; omega
+  have := (cache_cell_ge c x hm).1; omega
 
 theorem opActs_clean (c : CaseM) (tid : Nat) (o : OpM) (ho : o ∈ c.ops) :
     ∀ a ∈ opActs tid o, cleanAct (caseCfg c) a = true := by
@@ -31,9 +31,12 @@ theorem opActs_clean (c : CaseM) (tid : Nat) (o : OpM) (ho : o ∈ c.ops) :
     · simp at ha
   · split at ha
     · simp only [List.mem_map] at ha
-      obtain ⟨p, hp, rfl⟩ := ha
-      simp only [cleanAct, List.contains_iff_mem, caseCfg, List.mem_append, List.mem_flatMap, List.mem_map]
-      exact Or.inl ⟨o, ho, p, hp, rfl⟩
+      obtain ⟨p, _, rfl⟩ := ha
+      have hn : patCell p ∉ (caseCfg c).cache := fun hm => by
+        have h := (cache_cell_ge c (patCell p) hm).2
+        have : (10 + 2 * p) % 2 = 1 := h
+        omega
+      simp [cleanAct, hn]
     · simp at ha
   · split at ha
     · simp only [List.mem_singleton] at ha; subst ha
@@ -45,8 +48,8 @@ theorem opActs_clean (c : CaseM) (tid : Nat) (o : OpM) (ho : o ∈ c.ops) :
     · simp at ha
   · split at ha
     · simp only [List.mem_singleton] at ha; subst ha
-      simp only [cleanAct, List.contains_iff_mem, caseCfg, List.mem_append, List.mem_map]
-      exact Or.inr ⟨o, ho, rfl⟩
+      simp only [cleanAct, List.contains_iff_mem, caseCfg, List.mem_map]
+      exact ⟨o, ho, rfl⟩
     · simp at ha
   · split at ha
     · simp only [List.mem_singleton] at ha; subst ha; exact rd 3 (by omega)
